@@ -3,6 +3,7 @@ factored.  Generator-side ground truth (p, q known) next to the responsible
 check classes."""
 from vp import gen
 from vp import rsagen
+from vp import workloads
 
 ID = 'C04'
 RULE = ('one evaluation = one modulus built by a documented close-prime '
@@ -46,9 +47,9 @@ def _factored(key, p, q):
 
 
 def _check(ctx, chk, n):
-  key = gen.rsa_key(n)
+  batch, key = workloads.rsa_in_batch(ctx, n)
   try:
-    chk.Check([key])
+    chk.Check(batch)
   except Exception as e:  # pylint: disable=broad-except
     ctx.violation('check-raised-%s@%s' % (type(e).__name__, chk.check_name),
                   repr(e), {'n': n})
@@ -200,6 +201,11 @@ def run_unseeded(ctx, spec):
 
 def run(ctx, spec):
   s = spec['shard']
+  tail = s.rsplit('-', 1)[-1]
+  if tail.isdigit() and int(tail) % 2 == 1:
+    # odd shards: other instances of the parametrised checks exist (and were
+    # used) before the instance under observation is built
+    workloads.rsa_decoy_instances(ctx)
   for prefix, fn in (('fermat', run_fermat), ('hilo', run_hilo),
                      ('upperdiff', run_upperdiff), ('unseeded', run_unseeded)):
     if s.startswith(prefix):
@@ -208,7 +214,8 @@ def run(ctx, spec):
 
 def finalize(agg, tier):
   c = agg['counters']
-  need = ['fermat_inside', 'fermat_outside', 'fermat_at_boundary',
+  need = ['decoy_instances_built', 'batch_position:0', 'batch_position:3',
+          'fermat_inside', 'fermat_outside', 'fermat_at_boundary',
           'hilo:low-heavy', 'hilo:high-heavy', 'unseeded:variant0',
           'unseeded:variant1', 'unseeded:variant2'] + [
               'upperdiff:2^(L-%d)' % d for d in rsagen.UPPER_DIFF_EXPS]
